@@ -196,3 +196,132 @@ func ntC10(c *Case, tr *Trace) bool {
 	}
 	return inflight && late
 }
+
+// genC10Late: a reverse-tunnel server that is serving 1-3 tunnels gets one more Serve
+// call (a reconnect loop) around the moment Stop (optionally preceded by GracefulStop)
+// is called; the new carrier stream's round trip is delivered by the schedule, so Stop
+// can fall before, inside or after it.
+func genC10Late(t *rapid.T) *Case {
+	c := &Case{Prop: "c10late"}
+	c.Cfg = genConfig(t, []string{"rev"})
+	c.Cfg.Tunnels = make([]TunnelSpec, rapid.IntRange(1, 3).Draw(t, "ntunnels"))
+	nIn := rapid.IntRange(0, 2).Draw(t, "ninflight")
+	for i := 0; i < nIn; i++ {
+		r := genBystander(t, fmt.Sprintf("in%d", i))
+		r.Role = "inflight"
+		c.RPCs = append(c.RPCs, r)
+	}
+	at := rapid.IntRange(0, 12*nIn).Draw(t, "serve_at") // steps only pass while something is running
+	c.Events = []Event{{Kind: "serve_more", After: at, AtStep: true}}
+	d := rapid.SampledFrom([]int{-3, -1, 0, 0, 1, 1, 2, 3, 6, 20}).Draw(t, "stop_delta")
+	stopAt := at + d
+	if stopAt < 0 {
+		stopAt = 0
+	}
+	if rapid.IntRange(0, 3).Draw(t, "graceful_first") == 0 {
+		g := stopAt - rapid.IntRange(0, 4).Draw(t, "graceful_delta")
+		if g < 0 {
+			g = 0
+		}
+		c.Events = append(c.Events, Event{Kind: "graceful_stop", After: g, AtStep: true})
+	}
+	c.Events = append(c.Events, Event{Kind: "stop", After: stopAt, AtStep: true})
+	if rapid.IntRange(0, 3).Draw(t, "second_serve") == 0 {
+		c.Events = append(c.Events, Event{Kind: "serve_more", After: stopAt + rapid.IntRange(0, 3).Draw(t, "serve2_delta"), AtStep: true})
+	}
+	c.Tape = genTape(t, 0, 200)
+	return c
+}
+
+// monC10Late: "Stop returns only after every Serve call has returned". A Serve call
+// that was still opening its stream when Stop ran cannot be waited for by Stop (it has
+// not registered yet), but it must not go on to serve: once everything in flight has
+// been delivered it has returned, and nothing it started is left running.
+func monC10Late(c *Case, tr *Trace) []Violation {
+	var vs []Violation
+	if tr.Aborted != "" {
+		return nil
+	}
+	add := func(class string, step int, f string, a ...any) {
+		vs = append(vs, Violation{Prop: "C10", Class: class, Step: step, Details: fmt.Sprintf(f, a...)})
+	}
+	for _, p := range tr.Panics {
+		add("panic", 0, "%s", p)
+	}
+	var stop *EventRec
+	for _, e := range tr.Events {
+		if e.Kind == "stop" && e.Fired >= 0 {
+			stop = e
+		}
+	}
+	if stop == nil {
+		return vs
+	}
+	if stop.Returned < 0 || stop.PendingAtEnd {
+		add("stop_never_returned", stop.Fired, "Stop called at step %d never returned", stop.Fired)
+		return vs
+	}
+	end := tr.PhaseStart["end"]
+	for _, t := range tr.Tunnels {
+		if t.Kind != "rev" {
+			continue
+		}
+		if t.ServeCalled > stop.Returned {
+			continue // a Serve call made after Stop returned: refused, see below
+		}
+		if t.ServeStarted && t.ServeCalled < stop.Fired && t.Opened && (t.ServeReturned < 0 || t.ServeReturned > stop.Returned) {
+			add("stop_returned_before_serve", stop.Returned, "Stop returned at step %d but Serve of tunnel %d (serving since step %d) returned at step %d", stop.Returned, t.Idx, t.ServeCalled, t.ServeReturned)
+		}
+		if t.ServeReturned < 0 || t.ServeReturned >= end {
+			add("serve_running_after_stop", stop.Returned, "Stop returned at step %d; the Serve call of tunnel %d (called at step %d) was still running when the drained run ended at step %d (returned at %d, started=%v)", stop.Returned, t.Idx, t.ServeCalled, end, t.ServeReturned, t.ServeStarted)
+		}
+	}
+	for _, t := range tr.Tunnels {
+		if t.Kind == "rev" && t.ServeCalled > stop.Returned {
+			if t.ServeStarted || t.ServeReturned < 0 || t.ServeReturned >= end {
+				add("serve_after_stop_not_refused", t.ServeCalled, "Serve called at step %d, after Stop had returned at step %d: started=%v returned@%d err=%q", t.ServeCalled, stop.Returned, t.ServeStarted, t.ServeReturned, t.ServeErr)
+			}
+		}
+	}
+	for _, inv := range tr.Invocations {
+		if inv.Step <= stop.Returned && (inv.CtxDoneStep < 0 || inv.CtxDoneStep > stop.Returned) {
+			add("stop_returned_before_handlers_cancelled", stop.Returned, "Stop returned at step %d but the handler of rpc %d saw its context end at step %d", stop.Returned, inv.RPC, inv.CtxDoneStep)
+		}
+		if inv.Step > stop.Returned {
+			add("handler_invoked_after_stop", inv.Step, "the handler of rpc %d was invoked at step %d, after Stop had returned at step %d", inv.RPC, inv.Step, stop.Returned)
+		}
+	}
+	return vs
+}
+
+// ntC10Late: Stop ran while a Serve call was between opening its stream and registering it.
+func ntC10Late(c *Case, tr *Trace) bool {
+	var stop *EventRec
+	for _, e := range tr.Events {
+		if e.Kind == "stop" && e.Fired >= 0 {
+			stop = e
+		}
+	}
+	if stop == nil {
+		return false
+	}
+	for _, t := range tr.Tunnels {
+		if t.Late && t.ServeCalled <= stop.Fired && t.ServeReturned > stop.Fired && !t.ServeStarted {
+			return true
+		}
+	}
+	return false
+}
+
+func labelsC10Late(c *Case, tr *Trace) []string {
+	ls := commonLabels(c, tr)
+	for _, t := range tr.Tunnels {
+		if t.Late {
+			ls = append(ls, fmt.Sprintf("late_serve_started=%v", t.ServeStarted))
+		}
+	}
+	if ntC10Late(c, tr) {
+		ls = append(ls, "stop_inside_serve_round_trip")
+	}
+	return ls
+}
